@@ -8,15 +8,15 @@ open Rx Rx.Gen.DefaultIfEmpty
 def absDefaultIfEmpty (g : DefaultIfEmptyObserver) : St1 := .defaultIfEmpty g.is_empty g.default_value
 
 theorem tie_DefaultIfEmpty_next (g : DefaultIfEmptyObserver) (v : Val) :
-    (DefaultIfEmptyObserver.next g v).map (fun r => (absDefaultIfEmpty r.1, r.2)) = some (St1.onNext (absDefaultIfEmpty g) v) := by
+    (DefaultIfEmptyObserver.next g v).map (fun r => (absDefaultIfEmpty r.1, r.2)) = some (Rs.lift (St1.onNext (absDefaultIfEmpty g) v)) := by
   rcases g with ⟨⟩ <;> rs_tie [DefaultIfEmptyObserver.next, absDefaultIfEmpty, St1.onNext]
 
 theorem tie_DefaultIfEmpty_error (g : DefaultIfEmptyObserver) (e : Err) :
-    (DefaultIfEmptyObserver.error g e).map (fun r => r.2) = some (St1.onError' (absDefaultIfEmpty g) e).2 := by
+    (DefaultIfEmptyObserver.error g e).map (fun r => r.2) = some ((St1.onError' (absDefaultIfEmpty g) e).2.map Rs.Ev.n) := by
   rcases g with ⟨⟩ <;> rs_tie [DefaultIfEmptyObserver.error, absDefaultIfEmpty, St1.onError']
 
 theorem tie_DefaultIfEmpty_complete (g : DefaultIfEmptyObserver) :
-    (DefaultIfEmptyObserver.complete g).map (fun r => r.2) = some (St1.onComplete' (absDefaultIfEmpty g)).2 := by
+    (DefaultIfEmptyObserver.complete g).map (fun r => r.2) = some ((St1.onComplete' (absDefaultIfEmpty g)).2.map Rs.Ev.n) := by
   rcases g with ⟨⟩ <;> rs_tie [DefaultIfEmptyObserver.complete, absDefaultIfEmpty, St1.onComplete']
 
 
